@@ -697,6 +697,38 @@ func runC18(w *fw.Worker) {
 			}
 			w.Count("changes_during_a_slow_verify_converged", 1)
 		}
+		if watch && mode == "ok" && r.Chance(20) {
+			// deploy tools that preserve timestamps (rsync -t, cp -p, reproducible packages): the file is replaced
+			// twice by files of the same length carrying the same old mtime; each replacement must be noticed
+			old := time.Unix(1_000_000_000, 0)
+			mk := func(marker string) []byte {
+				d := map[string]any{"marker": marker}
+				if kebab {
+					d = c18Recase(d)
+				}
+				return c18Render(format, d)
+			}
+			okAll := true
+			for _, marker := range []string{"from-file-6", "from-file-7"} {
+				tmp := path + ".pre"
+				if err := os.WriteFile(tmp, mk(marker), 0o644); err != nil {
+					okAll = false
+					break
+				}
+				os.Chtimes(tmp, old, old)
+				if err := os.Rename(tmp, path); err != nil {
+					okAll = false
+					break
+				}
+				if !conc.WaitUntil(func() bool { return d.View().Marker == marker }, 15*time.Second) {
+					w.Violation(i, "watched-change-not-installed:same-size-and-preserved-mtime", fmt.Sprintf("the file was replaced (rename-over) by one of the same length with the same, old, modification time; it holds marker %s, the view still shows %q after 15s", marker, d.View().Marker), desc)
+					return
+				}
+			}
+			if okAll {
+				w.Count("same_size_same_mtime_replacements_converged", 2)
+			}
+		}
 		if multi > 0 {
 			w.Distinct(fmt.Sprintf("%s|%v|%s|%s|%v|%v|%v|%s", format, byExt, flagKind, pathFrom, watch, kebab, want.Tags != nil, matrix.String()))
 		}
